@@ -19,7 +19,7 @@
   compatible keeps it, which edits can change the register counts, and that every linear extension (what
   `nx.topological_sort` returns) runs along every wire in wire order.
 -/
-import GraphiqModel.Proofs.Dag
+import GraphiqModel.Proofs.Reach
 namespace Graphiq.C12
 open Graphiq Graphiq.Dag Relation
 
@@ -196,6 +196,23 @@ theorem compatible_insert_keeps_dagInv {c : Dag} (h : DagInv c) {op : Op} (hop :
       · exact absurd rfl hne
   have := insertAt_good g hop hok
   exact ⟨this.2 (by rw [hens]), this.1⟩
+
+/-- the model's own breadth-first instances of `ancestors` / `descendants` meet the recorded networkx specification on
+    every circuit satisfying DagInv — so the set the model computes for `find_incompatible_edges` (which the harness
+    compares with the implementation's on every query) is a verified computation -/
+theorem model_reachability_meets_nx_spec {c : Dag} (h : DagInv c) (n : NodeId) :
+    AncSpec c n (c.ancestors n) ∧ DescSpec c n (c.descendants n) := by
+  obtain ⟨P, g⟩ := h
+  exact ⟨ancestors_spec g n, descendants_spec g n⟩
+
+/-- … hence: an edge pair that the model's `find_incompatible_edges` reports compatible can always be used for a
+    two-qubit `insert_at`, which succeeds and keeps DagInv (no hypothesis about networkx left) -/
+theorem model_compatible_insert_keeps_dagInv {c : Dag} (h : DagInv c) {op : Op} (hop : OpWF op) {first second : Edge}
+    {L : List Edge} (hL : c.findIncompatibleEdges first = .ok L) (h1 : first ∈ c.edges) (h2 : second ∈ c.edges)
+    (hcompat : second ∉ L) (hq : op.qregs = [first.key, second.key]) (hc : ∀ r ∈ op.cregs, r < c.regs .c) :
+    (c.insertAt op [first, second]).2 = none ∧ DagInv (c.insertAt op [first, second]).1 :=
+  compatible_insert_keeps_dagInv h hop (model_reachability_meets_nx_spec h first.src).1
+    (model_reachability_meets_nx_spec h first.dst).2 hL h1 h2 hcompat hq hc
 
 /-! ## 5. only register-adding edits change the register counts -/
 
